@@ -236,11 +236,11 @@ theorem mnem_class (m : Tok) (h : mnemOk m = true) :
     have := (digit_facts c (hall c (by simp))).1
     simp [sPUSHLIB, List.isPrefixOf, Ne.symm this]
 
-/-- `PUSHk 0x<digits>` keeps the digits as they are written -/
-theorem parse_pushN_0x (m s : Tok) (hm : mnemOk m = true) :
-    parse [m, '0' :: 'x' :: s] = some [⟨sPUSH, .str s⟩] := by
+/-- `PUSHk 0x<digits>` reads a hexadecimal number and keeps it in canonical form (no leading zeros, lower case) -/
+theorem parse_pushN_0x (m s : Tok) (hm : mnemOk m = true) (n : Nat) (hv : hexVal? ('0' :: 'x' :: s) = some n) :
+    parse [m, '0' :: 'x' :: s] = some [⟨sPUSH, .str (hexStr n)⟩] := by
   obtain ⟨h1, h2, h3, h4, h5, h6, h7⟩ := mnem_class m hm
-  simp [parse, parseOps, h1, h2, h3, h4, h5, h6, h7, List.isPrefixOf]
+  simp [parse, parseOps, h1, h2, h3, h4, h5, h6, h7, List.isPrefixOf, hv]
 
 /-- `PUSHk <decimal>` reads a decimal number -/
 theorem parse_pushN_dec (m s : Tok) (hm : mnemOk m = true) (hs : allDec s = true) (n : Nat)
@@ -290,11 +290,15 @@ theorem spelling_value (c : Nat) (toks : List Tok) (h : Spelling c toks) :
       exact ⟨nh, nd⟩
     exact ⟨_, parse_push_hex _ hy c hv, hexVal_hexStr c⟩
   | pushN0x m hm k =>
-    refine ⟨_, parse_pushN_0x m _ hm, ?_⟩
-    rw [hexVal_zeros k _ (allHex_hexStr c) (hexStr_ne_nil c), hexVal_hexStr]
+    have ha : allHex (List.replicate k '0' ++ hexStr c) = true := by rw [allHex_append, allHex_zeros, allHex_hexStr]; rfl
+    have hv : hexVal? ('0' :: 'x' :: (List.replicate k '0' ++ hexStr c)) = some c := by
+      rw [hexVal_0x _ ha, hexVal_zeros k _ (allHex_hexStr c) (hexStr_ne_nil c), hexVal_hexStr]
+    exact ⟨_, parse_pushN_0x m _ hm c hv, hexVal_hexStr c⟩
   | pushN0xUpper m hm k =>
-    refine ⟨_, parse_pushN_0x m _ hm, ?_⟩
-    rw [hexVal_zeros k _ (allHex_hexStrU c) (by simp [hexStrU, hexStr_ne_nil]), hexVal_hexStrU]
+    have ha : allHex (List.replicate k '0' ++ hexStrU c) = true := by rw [allHex_append, allHex_zeros, allHex_hexStrU]; rfl
+    have hv : hexVal? ('0' :: 'x' :: (List.replicate k '0' ++ hexStrU c)) = some c := by
+      rw [hexVal_0x _ ha, hexVal_zeros k _ (allHex_hexStrU c) (by simp [hexStrU, hexStr_ne_nil]), hexVal_hexStrU]
+    exact ⟨_, parse_pushN_0x m _ hm c hv, hexVal_hexStr c⟩
   | pushNdec m hm k =>
     have ha : allDec (List.replicate k '0' ++ decStr c) = true := by rw [allDec_append, allDec_zeros, allDec_decStr]; rfl
     have hv : decVal? (List.replicate k '0' ++ decStr c) = some c := by
